@@ -9,6 +9,9 @@ CALLS = [
     ("{a: 1.5}", "each", ["untyped", "Float"]), ('[[1, "a"], [2, "b"]]', "each", ["Integer", "String"]),
     ('{a: 1}.merge({b: "s"})', None, ["Symbol", "Integer", "String"]),            # a dynamic strategy (Hash#merge)
     ("ur0", "each", ["Integer"]),                                                  # a union receiver: Array or Range
+    ("ur1", "each", ["Union<Integer Float>"]),                                     # Range or Array<Float>
+    ("ur2", "each_with_index", ["Union<String Symbol>", "Integer"]),               # Array<String> or Array<Symbol>: not a union receiver for ti
+    ("ur3", "each", ["Union<untyped Integer>", "Union<Float NilClass>"]),         # Hash (key untyped, value) or Array: surplus is nil per variant
 ]
 VALS = [("1", "Integer"), ('"s"', "String"), ("1.5", "Float"), (":a", "Symbol")]
 
@@ -39,7 +42,7 @@ class Gen:
         nparams = r.choice([0, 1, 1, 2, 2, 3])
         params = []
         for i in range(nparams):
-            if env and r.random() < 0.3 and recv != "ur0":
+            if env and r.random() < 0.3 and not recv.startswith("ur"):
                 cand = [v for v in env if v not in params]
                 if cand:
                     params.append(r.choice(sorted(cand)))      # shadows an outer variable
@@ -54,7 +57,7 @@ class Gen:
         for i, p in enumerate(params):
             inner[p] = decl[i] if i < len(decl) else "NilClass"
         for p in params:
-            self.probe(p, inner[p], indent + 1, "parameter of a union receiver" if recv == "ur0" else "parameter")
+            self.probe(p, inner[p], indent + 1, "parameter of a union receiver" if recv.startswith("ur") else "parameter")
         locals_ = []
         for _ in range(r.randint(0, 2)):
             v = self.fresh("loc")
@@ -63,7 +66,7 @@ class Gen:
             inner[v] = t
             locals_.append(v)
             self.probe(v, t, indent + 1, "block local inside")
-        if depth < 2 and r.random() < 0.5 and recv != "ur0":
+        if depth < 2 and r.random() < 0.5:
             self.block(inner, indent + 1, depth + 1)
             for v in sorted(inner):
                 if v in locals_ or v in params:
@@ -89,6 +92,9 @@ def gen_program(r):
         env[v] = t
     g.emit("cu0 = true", 0)
     g.emit("ur0 = cu0 ? [1, 2] : (1..3)", 0)
+    g.emit("ur1 = cu0 ? (1..3) : [1.5]", 0)
+    g.emit('ur2 = cu0 ? ["a"] : [:b]', 0)
+    g.emit("ur3 = cu0 ? {a: 1.5} : [1]", 0)
     if r.random() < 0.5:
         g.emit('w0 = "warm".upcase', 0)          # an ordinary call resolved earlier in the file
         env["w0"] = "String"
